@@ -432,7 +432,7 @@ func (s *ProdState) OnCancel(_ context.Context, cc *vgirpc.CallContext) error {
 	Rec.With(s.S.Nonce, func(c *CallRec) { c.CancelCalls++; observe(c, cc) })
 	yield("state.cancel")
 	s.Dead = true
-	return nil
+	return cancelOutcome(&s.S)
 }
 
 // Exchange implements vgirpc.ExchangeState.
@@ -469,6 +469,17 @@ func (s *ExchState) OnCancel(_ context.Context, cc *vgirpc.CallContext) error {
 	Rec.With(s.S.Nonce, func(c *CallRec) { c.CancelCalls++; observe(c, cc) })
 	yield("state.cancel")
 	s.Dead = true
+	return cancelOutcome(&s.S)
+}
+
+// cancelOutcome is what a scripted cancel hook does once it has run.
+func cancelOutcome(s *Script) error {
+	switch s.CancelFail {
+	case "error":
+		return fmt.Errorf("scripted cancel-hook failure %d", s.Nonce)
+	case "panic":
+		panic(fmt.Sprintf("scripted cancel-hook panic %d", s.Nonce))
+	}
 	return nil
 }
 
